@@ -101,7 +101,7 @@ func runC10(c *Ctx) {
 		}
 		s2 := newSumm(p, 0)
 		owner := fn
-		s2.HelperInline = func(f *ssa.Function) bool { return privateHelper(owner, f) && writesComb(f) }
+		s2.HelperInline = func(f *ssa.Function) bool { return privateHelper(owner, f) && (writesComb(f) || takesCards(f)) }
 		for _, l := range s2.loops(fn) {
 			ri := analyseRange(l)
 			if !loadsField(ri.Coll, "pokerface.GameState.Players") || !ri.Full || len(l.Exits) != 1 {
@@ -180,12 +180,27 @@ func runC10(c *Ctx) {
 			// Cards: rebuilt by a full-range loop over <evaluation>.Cards that appends one string per card,
 			// either directly to the field (after emptying it) or to a local that is then stored
 			var cardLoop *Event
+			helperColl := map[*Loop]bool{}
 			for _, e := range ps.Events {
 				if e.Kind != "loop" {
 					continue
 				}
 				ri := analyseRange(e.Loop)
-				if !loadsField(ri.Coll, "combination.PowerState.Cards") || !ri.Full || len(e.Loop.Exits) != 1 {
+				fromEval := loadsField(ri.Coll, "combination.PowerState.Cards")
+				if prm, isP := ri.Coll.(*ssa.Parameter); isP && e.InFn != pub {
+					// a conversion helper entered with <evaluation>.Cards
+					for _, en := range ps.Events {
+						if en.Kind == "enter" && en.Fn == e.InFn {
+							for i, q := range en.Fn.Params {
+								if q == prm && i < len(en.Args) && en.Args[i].String() == src+".Cards" {
+									fromEval = true
+									helperColl[e.Loop] = true
+								}
+							}
+						}
+					}
+				}
+				if !fromEval || !ri.Full || len(e.Loop.Exits) != 1 {
 					continue
 				}
 				ib, _ := s.LoopBody(e.InFn, e.Loop)
@@ -214,7 +229,7 @@ func runC10(c *Ctx) {
 			if okCards {
 				// the collection ranged over is the Cards of this evaluation
 				ri := analyseRange(cardLoop.Loop)
-				okColl := false
+				okColl := helperColl[cardLoop.Loop]
 				if u, ok := ri.Coll.(*ssa.UnOp); ok {
 					if fa, ok := u.X.(*ssa.FieldAddr); ok {
 						if fa.X == ev.Instr.(ssa.Value) {
@@ -442,4 +457,14 @@ func runC10(c *Ctx) {
 
 	// ---- enumeration-complete
 	runC10Enumeration(c)
+}
+
+// takesCards: a helper that converts a list of evaluated cards (e.g. into their symbols).
+func takesCards(f *ssa.Function) bool {
+	for i := 0; i < f.Signature.Params().Len(); i++ {
+		if typeShort(f.Signature.Params().At(i).Type()) == "[]*combination.Card" {
+			return true
+		}
+	}
+	return false
 }
